@@ -2,9 +2,10 @@
 From AsconV Require Import Model.Xofm Proofs.SpongeP Proofs.SqueezeP Proofs.AeadP.
 Local Open Scope nat_scope.
 
-Definition xvariant_ok (v : xof_variant) : Prop := v = vxof \/ v = vxofa.
+Definition xvariant_ok (v : xof_variant) : Prop := v = vxof \/ v = vxofa \/ v = vprf.
 
-Definition xwf (s : xof_state) : Prop := length (x_st s) = 40 /\ x_count s < 8.
+Definition xwf (v : xof_variant) (s : xof_state) : Prop :=
+  length (x_st s) = 40 /\ x_count s < (if x_mode s then xv_rate_out v else xv_rate_in v).
 
 Section WithPerm.
 Variable perm : nat -> bytes -> bytes.
@@ -18,44 +19,48 @@ Lemma pb_len : forall s, length s = 40 -> length (pb s) = 40.
 Proof. intros; now apply perm_len. Qed.
 Lemma p0_len : forall s, length s = 40 -> length (perm 0 s) = 40.
 Proof. intros; now apply perm_len. Qed.
-Lemma r8 : 0 < 8. Proof. lia. Qed.
-Lemma r840 : 8 <= 40. Proof. lia. Qed.
+Local Notation rin := (xv_rate_in v).
+Local Notation rout := (xv_rate_out v).
+Lemma ri0 : 0 < rin. Proof. destruct Hv as [H|[H|H]]; subst v; cbn; lia. Qed.
+Lemma ri40 : rin <= 40. Proof. destruct Hv as [H|[H|H]]; subst v; cbn; lia. Qed.
+Lemma ro0 : 0 < rout. Proof. destruct Hv as [H|[H|H]]; subst v; cbn; lia. Qed.
+Lemma ro40 : rout <= 40. Proof. destruct Hv as [H|[H|H]]; subst v; cbn; lia. Qed.
 
 Lemma lazy_pb : xv_lazy v = true -> xv_pb v = 0.
-Proof. destruct Hv as [H|H]; subst v; cbn; congruence. Qed.
+Proof. destruct Hv as [H|[H|H]]; subst v; cbn; congruence. Qed.
 
 (* ---- absorbing ---------------------------------------------------------- *)
 
-Lemma xof_absorb_serial s d : x_mode s = false -> xwf s ->
+Lemma xof_absorb_serial s d : x_mode s = false -> xwf v s ->
   xof_absorb perm v s d =
-  {| x_st := fst (fst (serial bf_enc pb 8 (x_st s, x_count s) d));
-     x_count := snd (fst (serial bf_enc pb 8 (x_st s, x_count s) d)); x_mode := false |}.
+  {| x_st := fst (fst (serial bf_enc pb rin (x_st s, x_count s) d));
+     x_count := snd (fst (serial bf_enc pb rin (x_st s, x_count s) d)); x_mode := false |}.
 Proof.
-  intros Hm [Hl Hc]. unfold xof_absorb. rewrite Hm.
-  rewrite (duplex_c_serial bf_enc pb 8 40 pb_len r8 r840) by auto.
-  destruct (serial bf_enc pb 8 (x_st s, x_count s) d) as [[st' c'] o]. reflexivity.
+  intros Hm [Hl Hc]. rewrite Hm in Hc. unfold xof_absorb. rewrite Hm.
+  rewrite (duplex_c_serial bf_enc pb rin 40 pb_len ri0 ri40) by auto.
+  destruct (serial bf_enc pb rin (x_st s, x_count s) d) as [[st' c'] o]. reflexivity.
 Qed.
 
-Lemma xof_absorb_wf s d : x_mode s = false -> xwf s ->
-  xwf (xof_absorb perm v s d) /\ x_mode (xof_absorb perm v s d) = false.
+Lemma xof_absorb_wf s d : x_mode s = false -> xwf v s ->
+  xwf v (xof_absorb perm v s d) /\ x_mode (xof_absorb perm v s d) = false.
 Proof.
-  intros Hm Hw. rewrite xof_absorb_serial by auto. destruct Hw as [Hl Hc].
-  pose proof (serial_inv bf_enc pb 8 40 pb_len r8 r840 (x_st s) (x_count s) d Hc Hl) as [I1 [I2 _]].
+  intros Hm Hw. rewrite xof_absorb_serial by auto. destruct Hw as [Hl Hc]. rewrite Hm in Hc.
+  pose proof (serial_inv bf_enc pb rin 40 pb_len ri0 ri40 (x_st s) (x_count s) d Hc Hl) as [I1 [I2 _]].
   split; [split; cbn; auto|reflexivity].
 Qed.
 
 (* C07: absorbing a then b = absorbing a ++ b (either may be empty) *)
-Theorem xof_absorb_app s a b : x_mode s = false -> xwf s ->
+Theorem xof_absorb_app s a b : x_mode s = false -> xwf v s ->
   xof_absorb perm v (xof_absorb perm v s a) b = xof_absorb perm v s (a ++ b).
 Proof.
   intros Hm Hw. pose proof (xof_absorb_wf s a Hm Hw) as [Hw1 Hm1].
   rewrite (xof_absorb_serial (xof_absorb perm v s a) b Hm1 Hw1).
   rewrite (xof_absorb_serial s (a ++ b) Hm Hw). rewrite serial_app.
   rewrite (xof_absorb_serial s a Hm Hw). cbn [x_st x_count fst snd].
-  destruct (serial bf_enc pb 8 (x_st s, x_count s) a) as [[s1 c1] o1]. reflexivity.
+  destruct (serial bf_enc pb rin (x_st s, x_count s) a) as [[s1 c1] o1]. reflexivity.
 Qed.
 
-Theorem xof_absorb_chunks chunks : forall s, x_mode s = false -> xwf s ->
+Theorem xof_absorb_chunks chunks : forall s, x_mode s = false -> xwf v s ->
   fold_left (xof_absorb perm v) chunks s = xof_absorb perm v s (concat chunks).
 Proof.
   induction chunks as [|d ds IH]; intros s Hm Hw.
@@ -67,45 +72,54 @@ Qed.
 (* ---- squeezing ---------------------------------------------------------- *)
 
 Definition sq_serial (sp : bytes * nat) (n : nat) : (bytes * nat) * bytes :=
-  if xv_lazy v then lazy_serial (perm 0) 8 sp n else serial bf_sq pb 8 sp (zeros n).
+  if xv_lazy v then lazy_serial (perm 0) rout sp n else serial bf_sq pb rout sp (zeros n).
 
-Lemma lazy_serial_inv n : forall st pos, pos < 8 -> length st = 40 ->
-  snd (fst (lazy_serial (perm 0) 8 (st, pos) n)) < 8 /\
-  length (fst (fst (lazy_serial (perm 0) 8 (st, pos) n))) = 40.
+Lemma lazy_serial_inv n : forall st pos, pos < rout -> length st = 40 ->
+  snd (fst (lazy_serial (perm 0) rout (st, pos) n)) < rout /\
+  length (fst (fst (lazy_serial (perm 0) rout (st, pos) n))) = 40.
 Proof.
   induction n as [|n IH]; intros st pos Hp Hl; [cbn; auto|].
   cbn [lazy_serial fst snd].
   set (st1 := if pos =? 0 then perm 0 st else st).
   assert (L1 : length st1 = 40) by (unfold st1; destruct (pos =? 0); auto).
-  set (p' := if S pos =? 8 then 0 else S pos).
-  assert (P1 : p' < 8) by (unfold p'; destruct (Nat.eqb_spec (S pos) 8); lia).
-  specialize (IH st1 p' P1 L1). destruct (lazy_serial (perm 0) 8 (st1, p') n) as [r o]. exact IH.
+  set (p' := if S pos =? rout then 0 else S pos).
+  assert (P1 : p' < rout) by (unfold p'; pose proof ro0; destruct (Nat.eqb_spec (S pos) rout); lia).
+  specialize (IH st1 p' P1 L1). destruct (lazy_serial (perm 0) rout (st1, p') n) as [r o]. exact IH.
 Qed.
 
-Lemma xof_squeeze_serial s n : xwf s ->
+Lemma sepf_len st : length (sepf v st) = length st.
+Proof. unfold sepf. destruct (xv_sep v); [apply xor_at_len|reflexivity]. Qed.
+
+Lemma enter_wf s : xwf v s ->
+  snd (xof_enter_squeeze perm v s) < rout /\ length (fst (xof_enter_squeeze perm v s)) = 40.
+Proof.
+  intros [Hl Hc]. unfold xof_enter_squeeze. pose proof ro0. destruct (x_mode s); [cbn; auto|].
+  destruct (xv_lazy v); cbn; split; try lia; [|apply perm_len]; now rewrite sepf_len, xor_at_len.
+Qed.
+
+Lemma xof_squeeze_serial s n : xwf v s ->
   xof_squeeze perm v s n =
   let sp := xof_enter_squeeze perm v s in
   ({| x_st := fst (fst (sq_serial sp n)); x_count := snd (fst (sq_serial sp n)); x_mode := true |},
    snd (sq_serial sp n)).
 Proof.
   intros [Hl Hc]. unfold xof_squeeze, sq_serial. cbv zeta.
-  assert (E : snd (xof_enter_squeeze perm v s) < 8 /\ length (fst (xof_enter_squeeze perm v s)) = 40).
-  { unfold xof_enter_squeeze. destruct (x_mode s); [cbn; auto|].
-    destruct (xv_lazy v); cbn; split; try lia; [|apply perm_len]; now rewrite xor_at_len. }
+  assert (E : snd (xof_enter_squeeze perm v s) < rout /\ length (fst (xof_enter_squeeze perm v s)) = 40).
+  { apply enter_wf. split; auto. }
   destruct (xof_enter_squeeze perm v s) as [st c]. cbn [fst snd] in E. destruct E as [E1 E2].
   destruct (xv_lazy v).
-  - rewrite (lazy_squeeze_c_serial (perm 0) 8 40 r8 r840 st c n E1).
-    destruct (lazy_serial (perm 0) 8 (st, c) n) as [[st' c'] o]. reflexivity.
-  - rewrite (duplex_c_serial bf_sq pb 8 40 pb_len r8 r840) by auto.
-    destruct (serial bf_sq pb 8 (st, c) (zeros n)) as [[st' c'] o]. reflexivity.
+  - rewrite (lazy_squeeze_c_serial (perm 0) rout 40 ro0 ro40 st c n E1).
+    destruct (lazy_serial (perm 0) rout (st, c) n) as [[st' c'] o]. reflexivity.
+  - rewrite (duplex_c_serial bf_sq pb rout 40 pb_len ro0 ro40) by auto.
+    destruct (serial bf_sq pb rout (st, c) (zeros n)) as [[st' c'] o]. reflexivity.
 Qed.
 
-Lemma sq_serial_inv sp n : snd sp < 8 -> length (fst sp) = 40 ->
-  snd (fst (sq_serial sp n)) < 8 /\ length (fst (fst (sq_serial sp n))) = 40.
+Lemma sq_serial_inv sp n : snd sp < rout -> length (fst sp) = 40 ->
+  snd (fst (sq_serial sp n)) < rout /\ length (fst (fst (sq_serial sp n))) = 40.
 Proof.
   destruct sp as [st c]. cbn [fst snd]. intros Hc Hl. unfold sq_serial. destruct (xv_lazy v).
   - now apply lazy_serial_inv.
-  - pose proof (serial_inv bf_sq pb 8 40 pb_len r8 r840 st c (zeros n) Hc Hl) as [I1 [I2 _]]. auto.
+  - pose proof (serial_inv bf_sq pb rout 40 pb_len ro0 ro40 st c (zeros n) Hc Hl) as [I1 [I2 _]]. auto.
 Qed.
 
 Lemma sq_serial_add sp a b :
@@ -117,15 +131,8 @@ Proof.
   - rewrite zeros_app. apply serial_app.
 Qed.
 
-Lemma enter_wf s : xwf s ->
-  snd (xof_enter_squeeze perm v s) < 8 /\ length (fst (xof_enter_squeeze perm v s)) = 40.
-Proof.
-  intros [Hl Hc]. unfold xof_enter_squeeze. destruct (x_mode s); [cbn; auto|].
-  destruct (xv_lazy v); cbn; split; try lia; [|apply perm_len]; now rewrite xor_at_len.
-Qed.
-
 (* C07: squeezing m then n bytes = squeezing m + n bytes (either may be 0) *)
-Theorem xof_squeeze_add s m n : xwf s ->
+Theorem xof_squeeze_add s m n : xwf v s ->
   let '(s1, o1) := xof_squeeze perm v s m in
   let '(s2, o2) := xof_squeeze perm v s1 n in
   xof_squeeze perm v s (m + n) = (s2, o1 ++ o2).
@@ -144,21 +151,21 @@ Qed.
 
 (* from a freshly padded state the squeezed bytes are the specification's *)
 Lemma sq_serial_spec st n : length st = 40 ->
-  snd (sq_serial (if xv_lazy v then st else perm 0 st, 0) n) = spec_squeeze pb 8 (perm 0 st) n.
+  snd (sq_serial (if xv_lazy v then st else perm 0 st, 0) n) = spec_squeeze pb rout (perm 0 st) n.
 Proof.
   intros Hl. unfold sq_serial, spec_squeeze. destruct (xv_lazy v) eqn:L.
-  - pose proof (lazy_serial_sim (perm 0) 8 40 p0_len r8 r840 n st 0 r8 Hl) as [_ S].
+  - pose proof (lazy_serial_sim (perm 0) rout 40 p0_len ro0 ro40 n st 0 ro0 Hl) as [_ S].
     rewrite S. unfold alpha. cbn [fst snd Nat.eqb].
     rewrite (lazy_pb L).
-    pose proof (serial_spec bf_sq (perm 0) 8 40 p0_len r8 r840 (perm 0 st) (zeros n) (p0_len _ Hl)) as SP.
-    destruct (serial bf_sq (perm 0) 8 (perm 0 st, 0) (zeros n)) as [[s1 pos] o]. destruct SP as [_ SP].
+    pose proof (serial_spec bf_sq (perm 0) rout 40 p0_len ro0 ro40 (perm 0 st) (zeros n) (p0_len _ Hl)) as SP.
+    destruct (serial bf_sq (perm 0) rout (perm 0 st, 0) (zeros n)) as [[s1 pos] o]. destruct SP as [_ SP].
     rewrite <- SP. reflexivity.
-  - pose proof (serial_spec bf_sq pb 8 40 pb_len r8 r840 (perm 0 st) (zeros n) (p0_len _ Hl)) as SP.
-    destruct (serial bf_sq pb 8 (perm 0 st, 0) (zeros n)) as [[s1 pos] o]. destruct SP as [_ SP].
+  - pose proof (serial_spec bf_sq pb rout 40 pb_len ro0 ro40 (perm 0 st) (zeros n) (p0_len _ Hl)) as SP.
+    destruct (serial bf_sq pb rout (perm 0 st, 0) (zeros n)) as [[s1 pos] o]. destruct SP as [_ SP].
     rewrite <- SP. reflexivity.
 Qed.
 
-Lemma fold_squeeze outs : forall s acc, xwf s ->
+Lemma fold_squeeze outs : forall s acc, xwf v s ->
   snd (fold_left (fun '(s, acc) n => let '(s', o) := xof_squeeze perm v s n in (s', acc ++ o)) outs (s, acc)) =
   acc ++ snd (xof_squeeze perm v s (fold_right Nat.add 0 outs)).
 Proof.
@@ -168,7 +175,7 @@ Proof.
   - cbn [fold_left fold_right].
     pose proof (xof_squeeze_add s n (fold_right Nat.add 0 ns) Hw) as A.
     destruct (xof_squeeze perm v s n) as [s1 o1] eqn:E1.
-    assert (W1 : xwf s1).
+    assert (W1 : xwf v s1).
     { rewrite xof_squeeze_serial in E1 by auto. cbv zeta in E1. inversion E1; subst s1.
       pose proof (enter_wf s Hw) as [E2 E3].
       pose proof (sq_serial_inv (xof_enter_squeeze perm v s) n E2 E3) as [I1 I2]. split; cbn; auto. }
@@ -184,22 +191,22 @@ Qed.
    sponge output *)
 Theorem xof_run_spec S0 chunks outs : length S0 = 40 ->
   xof_run perm v (mk S0) chunks outs =
-  spec_squeeze pb 8 (absorb_msg perm v S0 (concat chunks)) (fold_right Nat.add 0 outs).
+  spec_squeeze pb rout (absorb_msg perm v S0 (concat chunks)) (fold_right Nat.add 0 outs).
 Proof.
   intros Hl. unfold xof_run.
-  assert (W0 : xwf (mk S0)) by (split; cbn; auto; lia).
+  assert (W0 : xwf v (mk S0)) by (split; cbn; auto; apply ri0).
   rewrite xof_absorb_chunks by auto.
   pose proof (xof_absorb_wf (mk S0) (concat chunks) eq_refl W0) as [W1 M1].
   rewrite fold_squeeze by auto. cbn [app].
   rewrite xof_squeeze_serial by auto. cbv zeta. cbn [snd].
   unfold xof_enter_squeeze. rewrite M1.
   rewrite (xof_absorb_serial (mk S0) (concat chunks) eq_refl W0). cbn [x_st x_count mk].
-  pose proof (serial_spec bf_enc pb 8 40 pb_len r8 r840 S0 (concat chunks) Hl) as SP.
-  pose proof (serial_inv bf_enc pb 8 40 pb_len r8 r840 S0 0 (concat chunks) r8 Hl) as [_ [I2 _]].
-  destruct (serial bf_enc pb 8 (S0, 0) (concat chunks)) as [[s1 pos] o]. cbn [fst snd] in *.
+  pose proof (serial_spec bf_enc pb rin 40 pb_len ri0 ri40 S0 (concat chunks) Hl) as SP.
+  pose proof (serial_inv bf_enc pb rin 40 pb_len ri0 ri40 S0 0 (concat chunks) ri0 Hl) as [_ [I2 _]].
+  destruct (serial bf_enc pb rin (S0, 0) (concat chunks)) as [[s1 pos] o]. cbn [fst snd] in *.
   destruct SP as [_ SP]. unfold absorb_msg. rewrite <- SP. cbn [fst].
-  assert (Lp : length (xor_at s1 pos [0x80%N]) = 40) by now rewrite xor_at_len.
-  pose proof (sq_serial_spec (xor_at s1 pos [0x80%N]) (fold_right Nat.add 0 outs) Lp) as Q.
+  assert (Lp : length (sepf v (xor_at s1 pos [0x80%N])) = 40) by now rewrite sepf_len, xor_at_len.
+  pose proof (sq_serial_spec (sepf v (xor_at s1 pos [0x80%N])) (fold_right Nat.add 0 outs) Lp) as Q.
   destruct (xv_lazy v); exact Q.
 Qed.
 
@@ -235,14 +242,14 @@ Qed.
 
 Lemma absorb_msg_len S0 msg : length S0 = 40 -> length (absorb_msg perm v S0 msg) = 40.
 Proof.
-  intros Hl. unfold absorb_msg. apply perm_len.
-  now destruct (spec_duplex_outlen bf_enc pb 8 40 pb_len r8 r840 S0 msg Hl) as [_ H].
+  intros Hl. unfold absorb_msg. apply perm_len. rewrite sepf_len.
+  now destruct (spec_duplex_outlen bf_enc pb rin 40 pb_len ri0 ri40 S0 msg Hl) as [_ H].
 Qed.
 
-Lemma spec_squeeze_len S n : length S = 40 -> length (spec_squeeze pb 8 S n) = n.
+Lemma spec_squeeze_len S n : length S = 40 -> length (spec_squeeze pb rout S n) = n.
 Proof.
   intros Hl. unfold spec_squeeze.
-  destruct (spec_duplex_outlen bf_sq pb 8 40 pb_len r8 r840 S (zeros n) Hl) as [H _].
+  destruct (spec_duplex_outlen bf_sq pb rout 40 pb_len ro0 ro40 S (zeros n) Hl) as [H _].
   rewrite H. unfold zeros. apply repeat_length.
 Qed.
 
@@ -309,10 +316,10 @@ Proof.
     { induction n as [|n IH]; intros w'; [reflexivity|]. cbn [be_encode]. rewrite app_length, IH. cbn. lia. }
     now rewrite H. }
   unfold xof_absorb_custom. destruct custom as [|c custom]; [reflexivity|].
-  assert (W0 : xwf (mk S0)) by (split; cbn; auto; lia).
+  assert (W0 : xwf v (mk S0)) by (split; cbn; auto; apply ri0).
   rewrite (xof_absorb_serial (mk S0) (c :: custom) eq_refl W0). cbn [x_st x_count x_mode mk].
-  pose proof (serial_spec bf_enc pb 8 40 pb_len r8 r840 S0 (c :: custom) L0) as SP.
-  destruct (serial bf_enc pb 8 (S0, 0) (c :: custom)) as [[s1 pos] o]. cbn [fst snd].
+  pose proof (serial_spec bf_enc pb rin 40 pb_len ri0 ri40 S0 (c :: custom) L0) as SP.
+  destruct (serial bf_enc pb rin (S0, 0) (c :: custom)) as [[s1 pos] o]. cbn [fst snd].
   destruct SP as [_ SP]. rewrite <- SP. reflexivity.
 Qed.
 
@@ -330,7 +337,7 @@ Proof.
     - unfold hash, xof_fixed. rewrite spec_squeeze_len; [reflexivity|]. apply absorb_msg_len. apply iv_state_len. }
   destruct custom as [|c custom]; [exact L0|].
   rewrite xor_at_len. apply perm_len.
-  now destruct (spec_duplex_outlen bf_enc pb 8 40 pb_len r8 r840 S0 (c :: custom) L0) as [_ H].
+  now destruct (spec_duplex_outlen bf_enc pb rin 40 pb_len ri0 ri40 S0 (c :: custom) L0) as [_ H].
 Qed.
 
 End WithPerm.
